@@ -13,8 +13,8 @@ open Graphiq Graphiq.Export
 
 /-! ## Part 1: `isinstance` between the 13 operation classes is equality (no class subclasses another) -/
 
-theorem tbl_subclass_refl : ∀ k ∈ Cls.all, isSubclass k k = true := by decide
-theorem tbl_subclass_eq : ∀ a ∈ Cls.all, ∀ b ∈ Cls.all, isSubclass a b = true → a = b := by decide
+theorem tbl_subclass_refl : ∀ k ∈ Cls.all, isSubclass k k = true := by decide +kernel
+theorem tbl_subclass_eq : ∀ a ∈ Cls.all, ∀ b ∈ Cls.all, isSubclass a b = true → a = b := by decide +kernel
 
 theorem isSubclass_iff (a b : Cls) : isSubclass a b = true ↔ a = b :=
   ⟨tbl_subclass_eq a (Cls.mem_all a) b (Cls.mem_all b), fun h => h ▸ tbl_subclass_refl a (Cls.mem_all a)⟩
